@@ -9,11 +9,12 @@ from lib import emitcheck as E
 ID = 'C18'
 IMPORTS = E.IMPORTS
 THEOREMS = ['C18_filter_free_canonical', 'C18_canonical_unique', 'C18_decl_order_canonical', 'C18_pipeline_is_compile_text',
-            'C18_set_order_refuted', 'C18_counters_per_call', 'C18_shared_counters_refuted']
+            'C18_set_order_refuted', 'C18_group_order_refuted', 'C18_counters_per_call', 'C18_shared_counters_refuted']
 RULE = ('batch cases: every program of the batch is compiled through compile_prolog_from_string in >= 8 subprocesses with '
         'different PYTHONHASHSEED, each with its own order of the programs, 0-5 unrelated compilations before each (syntax '
         'errors, visitor errors such as p :- q(foo/2)., non-callable heads, valid programs) and its own kind of options '
-        'argument (default, fresh/reused object, fresh/reused class, object without current_source_file), and twice in the '
+        'argument (default, fresh/reused object, fresh/reused class, object without current_source_file, or compile_prolog_from_file on a '
+        'file holding the text), and twice in the '
         'harness process; all results for a program must be byte-identical (sha256 of the text, or exception class and '
         'message) AND equal to the text that the Coq model of the compiler (Comp/CompileText.v compile_text, evaluated in Coq on '
         'the source text) gives for that program (sha256 of the model text; for a refused program the kind of refusal). '
@@ -41,7 +42,7 @@ CASE_TIMEOUT = 300
 COQ_CHUNK = 14
 
 PY = sys.executable
-MODES = ['default', 'fresh-object', 'reused-object', 'reused-class', 'fresh-class', 'bare-object']
+MODES = ['default', 'fresh-object', 'reused-object', 'reused-class', 'fresh-class', 'bare-object', 'from-file']
 
 # ------------------------------------------------------------------ generation
 
@@ -119,10 +120,16 @@ def builtin_corpus():
 
 def _spawn(case, proc):
     env = {'PATH': os.environ.get('PATH', '/usr/bin:/bin'), 'PYTHONPATH': os.path.join(os.environ.get('VERIF_REPO', '/repo'), 'src'),
-           'PYTHONHASHSEED': str(proc['hashseed']), 'PYTHONDONTWRITEBYTECODE': '1', 'LC_ALL': 'C.UTF-8'}
+           'PYTHONHASHSEED': str(proc['hashseed']), 'PYTHONDONTWRITEBYTECODE': '1', 'LC_ALL': 'C.UTF-8',
+           'VERIF_SCRATCH': _scratch()}
     job = json.dumps({'programs': case['programs'], 'noise': case['noise'], 'plan': proc['plan']})
     return subprocess.Popen([PY, os.path.abspath(c18_driver.__file__)], stdin=subprocess.PIPE, stdout=subprocess.PIPE,
                             stderr=subprocess.PIPE, env=env, text=True), job
+
+def _scratch():
+    d = os.path.join(coqrun.VERIF, '.work', 'c18-scratch')
+    os.makedirs(d, exist_ok=True)
+    return d
 
 _DECL = re.compile(r'^\s+V_(\w+) = variable\(\)$', re.M)
 _ALIAS = re.compile(r'^\s+V_(\w+) = arg\d+$', re.M)
